@@ -171,6 +171,6 @@ class logger_init:
         # a template naming an unknown field is rejected at construction
         "RuntimeError": lambda c, self, target, name, message, level, exc: c.Not(template_ok(message)),
         # a malformed conversion specifier is reported by %-formatting itself (property is silent about it)
-        "TypeError": lambda c, self, target, name, message, level, exc: template_ok(message),
-        "ValueError": lambda c, self, target, name, message, level, exc: template_ok(message),
+        "TypeError": lambda c, self, target, name, message, level, exc: True,
+        "ValueError": lambda c, self, target, name, message, level, exc: True,
     }
